@@ -323,3 +323,7 @@ case("C14", "offset-shifted", "VIOLATION", [(TT, "results[i, 2] = k - nq + 1", "
 case("C14", "rebuild-loop-short", "VIOLATION", [(TT, "\tfor i in range(1, min(nq, t_max+1)):\n\t\tB[i] = -1", "\tfor i in range(1, min(nq, t_max)):\n\t\tB[i] = -1")], "R-SIB")
 case("C14", "no-complement", "VIOLATION", [(TT, "\t\tfor j in range(n):\n\t\t\tB[i, j] = 1 - B[i, j]\n", "")], "CDF")
 case("C06", "trigger-equivalent-spelling", "HOLDS", [(D, "if len(Xi) == batch_size or i == (n-1):", "if i == n - 1 or len(Xi) == batch_size:")])
+prefix("C01", "D19-prefix-randomize-end", E, "31624ea", "R-ACCEPT", "ersatz.randomize")
+prefix("C01", "D20-prefix-insert-end", E, "a9f9bb1", "R-ACCEPT", "ersatz.insert")
+case("C01", "sub-rejects-zero", "VIOLATION", [(E, SUB_GUARD, SUB_GUARD.replace("start < 0 or ", "start <= 0 or "))], "R-ACCEPT", "ersatz.substitute")
+case("C01", "del-rejects-full-tail", "VIOLATION", [(E, DEL_G, "\tif end < 0 or end >= X.shape[-1] or end <= start:")], "R-ACCEPT", "ersatz.delete")
